@@ -232,6 +232,7 @@ func packDomainName(s string, msg []byte, off int, compression compressionMap, c
 		compOff   int
 		bs        []byte
 		wasDot    bool
+		nameLen   int
 	)
 loop:
 	for i := 0; i < ls; i++ {
@@ -280,6 +281,14 @@ loop:
 			labelLen := i - begin
 			if labelLen >= 1<<6 { // top two bits of length must be clear
 				return len(msg), ErrRdata
+			}
+
+			// The labels plus the terminating root label must fit in the
+			// 255 octets a name may occupy on the wire (UnpackDomainName
+			// rejects anything longer).
+			nameLen += 1 + labelLen
+			if nameLen+1 > maxDomainNameWireOctets {
+				return len(msg), ErrLongDomain
 			}
 
 			// off can already (we're in a loop) be bigger than len(msg)
